@@ -660,6 +660,10 @@ def case_xs(r, big=False):
         elif op in ("printf", "iprintf"):
             s = blob() if r.random() < 0.8 else blob(2500)
             v = r.choice([0, -1, 7, 1 << 40, -(1 << 62)])
+            if r.random() < 0.3:
+                # formatted length right at the 1024-byte stack buffer of iwxstr_printf_va
+                tot = r.choice([1022, 1023, 1024, 1024, 1025, 1026])
+                s = bytes(r.randrange(33, 127) for _ in range(tot - 1 - len(str(v))))
             f = s + b"|" + str(v).encode()
             if op == "printf":
                 ops.append("xs printf %s %d" % (H(s), v)), exp.append(("w", "printf 0"))
